@@ -10,7 +10,7 @@
    or Repaired (create a temporary sibling with O_EXCL under the first name among `<note>.tmp`,
    `<note>.1.tmp`, `<note>.2.tmp`, .. that does not exist — [tmp_of s (note_path k)], a function
    of the directory content —, write it, rename it over the note; the `fix:` commits R13 and
-   f503278).  [export k] is the text the in-memory export holds for key k (abstract here).
+   399cea9).  [export k] is the text the in-memory export holds for key k (abstract here).
    Hypotheses, all decidable on the tree: [names_ok] (no empty directory or file name),
    [irregular t = false] (no loaded file named like `x.md.md` / `.md.md`: class F14).
    No hypothesis about files that already carry a temporary name: they are never touched. *)
